@@ -6,6 +6,7 @@ import HumphreyModel.Driver.C18a
 import HumphreyModel.Driver.C17
 import HumphreyModel.Driver.C16
 import HumphreyModel.Driver.C10
+import HumphreyModel.Driver.C15
 
 /-!
 Line-protocol driver. Each input line: `fn <TAB> arg… <TAB> impl-output`.
@@ -16,7 +17,7 @@ One `dispatch` per property lives in `HumphreyModel/Driver/Cxx.lean`.
 open Humphrey Humphrey.Driver
 
 def dispatchers : List (String → List String → String → Option Verdict) :=
-  [ C02.dispatch, C05.dispatch, C07.dispatch, C18a.dispatch, C17.dispatch, C16.dispatch, C10.dispatch ]
+  [ C02.dispatch, C05.dispatch, C07.dispatch, C18a.dispatch, C17.dispatch, C16.dispatch, C10.dispatch, C15.dispatch ]
 
 def dispatch (fn : String) (args : List String) (impl : String) : Verdict :=
   match dispatchers.findSome? (fun d => d fn args impl) with
